@@ -22,6 +22,10 @@ def seeded_table():
         det = []
         for k, v in checks.items():
             det.append(f"{k}: {'FIRES' if v['exit']==1 else ('silent' if v['exit']==0 else 'inconclusive')}")
+        missed_before = [e for e in m.get("earlier_runs", []) if e.get("detected") is False]
+        if missed_before:
+            tiers = ", ".join((missed_before[0].get("checks") or {}).keys())
+            det.append(f"(MISSED when first tried [{tiers} silent]; fires since the check was strengthened, section 14)")
         first = next((v["first_violation"] for v in checks.values() if v["exit"] == 1), "")
         kind = re.search(r"kind=(\S+)", first)
         rows.append(f"| {os.path.basename(d)} | {m.get('property')} | {what} | {needs} | {'yes' if m.get('confirmed') else 'NO'} | {'; '.join(det)} | {kind.group(1) if kind else ''} |")
